@@ -89,8 +89,14 @@ func buildRuns(cases []*caseT, combos []combo) []runSpec {
 					if (v == "poly") != (c.Kind == "line1d") {
 						continue
 					}
+					if c.Kind == "lattice" && (rt.name != c.For || v != c.Variant) {
+						continue // a lattice case is constructed for one routine and one variant
+					}
 					for _, o := range cs {
 						if c.Kind == "line1d" && o.Cons != "none" && c.Form == "window" {
+							continue
+						}
+						if c.Kind == "lattice" && (o.Cons != "half" || o.HookStop > 0) {
 							continue
 						}
 						if o.Cons == "half" && !c.Starts[si].Half.Has && c.Kind != "line1d" {
@@ -227,7 +233,7 @@ func main() {
 		if families[rn] == nil {
 			families[rn] = map[string]bool{}
 		}
-		if fam != "line1d" { // taken completely, outside the sampling
+		if fam != "line1d" && fam != "lattice" { // taken completely, outside the sampling
 			families[rn][fam] = true
 		}
 	}
@@ -243,7 +249,7 @@ func main() {
 		if f := os.Getenv("OPTIM_ROUTINE"); f != "" && !strings.Contains(","+f+",", ","+rs.routineName()+",") {
 			continue // debugging aid: restrict to some routines
 		}
-		if cases[rs.ci].Kind == "line1d" {
+		if cases[rs.ci].Kind == "line1d" || cases[rs.ci].Kind == "lattice" {
 			// the boundary cases of spec/WolfeCases.tla are few and cheap: all of them, with every option combination
 			selected = append(selected, rs)
 			continue
